@@ -292,7 +292,19 @@ def r6_observers_recorded_per_handler(ctx):
     chain_recorded_per_handler(ctx, 'C06.R6', 'handler_id2error_observer_ids', 'error observer chain')
 
 
+def r7_generic_matching_is_faithful(ctx):
+    ctx.rule('C06.R7', 'shared with C17.R13: whether the generic error handler registered for an error type is the one that is wired is decided by `Type::is_a_template_for`: a matcher that wrongly says "no match" lets a later catch-all handler (or the fallback) answer instead. The recursive calls of the template matcher keep the roles of template and concrete operand, and parts of the two '
+             'operands are not compared by derived equality outside the reviewed sites.')
+    from .c17 import r13_template_roles_and_relation
+    from ..engine import Ctx
+    side = Ctx(ctx.prop, ctx.fb, ctx.tier)
+    r13_template_roles_and_relation(side)
+    for ob in side.obs:
+        ctx.ob('C06.R7', ob.key, ob.ok, ob.loc, ob.detail, ob.nontrivial)
+
+
 def check(ctx):
+    r7_generic_matching_is_faithful(ctx)
     r6_observers_recorded_per_handler(ctx)
     r1_build_order(ctx)
     r2_observer_splice(ctx)
